@@ -268,7 +268,8 @@ class C08(Check):
     assumptions = ["bursts that no longer parse after bit corruption are outside the property's domain and count as drops",
                    "the burst during which an 'ended' fires may or may not be among the handed-over blocks (both accepted)",
                    "when a truncated transmission is given up is not constrained: oracles follow observed callbacks",
-                   "observers raise subclasses of Exception"]
+                   "raising observers raise Exception subclasses and, in a third of the raising runs, BaseException subclasses (SystemExit, GeneratorExit, CancelledError)",
+                   "fresh-receiver oracle: what is handed over at an 'ended' must equal what a fresh receiver hands over for the bursts delivered to that slot since the matching 'started'"]
 
     def preload(self):
         air.preload()
@@ -294,7 +295,7 @@ class C08(Check):
             if f.random() < 0.5:
                 cbs = ["started", "data_ended", "voice_ended"]
                 on = [c for c in cbs if f.random() < 0.6] or [f.choice(cbs)]
-                knobs["raising_observer"] = {"on": on, "pos": f.randrange(2), "exc": f.choice(["ValueError", "KeyError", "RuntimeError", "AssertionError", "ZeroDivisionError"])}
+                knobs["raising_observer"] = {"on": on, "pos": f.randrange(2), "exc": f.choice(["ValueError", "KeyError", "RuntimeError", "AssertionError", "ZeroDivisionError", "ValueError", "SystemExit", "GeneratorExit", "CancelledError"])}
         ntx = k.choice([1, 2, 3, 4, 6, 8])
         long_voice = k.random() < 0.02
         mix = {"voice": k.choice([0, 1, 2]), "voice_noterm": k.choice([0, 1]), "gen_data": k.choice([0, 1, 2]), "hand_data": k.choice([0, 1, 2]),
@@ -434,8 +435,10 @@ class C08(Check):
             for x in op.get("f", []):
                 res.fault(x)
             st = S.setdefault((op["term"], op["ts"]), {"unmatched": Counter(), "win": [], "hdr": {}, "prev": None, "after_end": True, "chain": None,
-                                                       "since_end": 0})
+                                                       "since_end": 0, "since_start": []})
             ok = self._judge(res, rx, st, r, i, "+".join(op.get("f", [])) or "-")
+            if ok:
+                ok = self._fresh_receiver_oracle(res, st, r, op, i)
             # oracle 7: all non-raising observers saw the same events
             if rx.second is not None:
                 a, b = rx.primary.ev, rx.second.ev
@@ -453,6 +456,51 @@ class C08(Check):
         res["sim_time"] = nbursts * 0.03
         res["digest"] = rx.log.digest()
         return res
+
+    def _fresh_receiver_oracle(self, res, st, r, op, i):
+        """history independence of what is handed over: replay the bursts of this slot since the matching 'started' on a fresh receiver"""
+        evs = r["events"]
+        cur = (op["data"], op["bt"])
+        ended = [e for e in evs if e[0] != "started"]
+        ok = True
+        if ended and len(st["since_start"]) <= 400:
+            first_is_start = evs[0][0] == "started"
+            seq = [cur] if first_is_start else st["since_start"] + [cur]
+            e = ended[0]
+            fres = core.RunResult()
+            saved = (air_tmod().secrets, air_tsmod().time)
+            try:
+                fresh = air.Receiver({"entropy_seed": 7, "second_observer": False}, fres, "fresh")
+                last = None
+                for d, bt in seq:
+                    last = fresh.feed(op["term"], op["ts"], bytes.fromhex(d), bt, i)
+            finally:
+                air_tmod().secrets, air_tsmod().time = saved
+            fe = [x for x in (last["events"] if last else []) if x[0] != "started"]
+            res.probe("fresh_receiver_comparisons")
+            if not fe or fe[0][0] != e[0]:
+                res.violate("C08.3 handed-over-depends-on-earlier-history", e[2], f"{e[0]} fired on this burst, but a fresh receiver fed the {len(seq)} bursts of this slot since "
+                            f"the matching 'started' gives {[x[0] for x in (last['events'] if last else [])]} on the last burst", at=i)
+                ok = False
+            else:
+                a = [air.Receiver.full_key(x) for x in e[4]]
+                b = [air.Receiver.full_key(x) for x in fe[0][4]]
+                ha = air.Receiver.full_key(e[3]) if e[3] is not None else None
+                hb = air.Receiver.full_key(fe[0][3]) if fe[0][3] is not None else None
+                if a != b or ha != hb:
+                    diff = next((k for k in range(min(len(a), len(b))) if a[k] != b[k]), None)
+                    res.violate("C08.3 handed-over-depends-on-earlier-history", e[2], f"{e[0]}: blocks/header handed over differ from what a fresh receiver hands over for the same "
+                                f"{len(seq)} bursts since the 'started' (lengths {len(a)}/{len(b)}, first difference at block {diff}: {a[diff][:3] if diff is not None else ha} vs "
+                                f"{b[diff][:3] if diff is not None else hb})", at=i)
+                    ok = False
+        # bookkeeping: bursts delivered to this slot since (and including) the burst of the latest 'started'
+        if any(x[0] == "started" for x in evs):
+            st["since_start"] = [cur]
+        elif evs and evs[-1][0] != "started":
+            st["since_start"] = []
+        else:
+            st["since_start"].append(cur)
+        return ok
 
     def _judge(self, res, rx, st, r, i, fault):
         cls, key, evs, out, tr, type0 = r["cls"], r["key"], r["events"], r["out"], r["tracker"], r["type0"]
@@ -552,6 +600,18 @@ class C08(Check):
         if sig in ("dS", "vS"):
             res.probe("end_and_start_in_one_burst")
         return not res["viol"]
+
+
+def air_tmod():
+    import okdmr.dmrlib.transmission.transmission as m
+
+    return m
+
+
+def air_tsmod():
+    import okdmr.dmrlib.transmission.timeslot as m
+
+    return m
 
 
 def _same(got, want):
